@@ -164,7 +164,12 @@ def check_case(ctx, case):
                       'parsed by the harness', case, {'basis_equal':
                                                       ub == basis})
         return
-    o = observe(lib.Estimate, dict(pairs), 'thermochem')
+    mapping = dict(pairs)
+    if case.get('keyform') == 'obj':
+        by_name = dict((str(g), g) for g in lib)
+        mapping = dict((by_name.get(k, k), c) for k, c in pairs)
+        ctx.count('mappings_keyed_by_group_objects')
+    o = observe(lib.Estimate, mapping, 'thermochem')
     ctx.evals()
     if outside:
         if 'exc' in o:
@@ -286,7 +291,8 @@ def run_shard(ctx):
             pairs = [[k, r.choice(counts)] for k in ks]
             case = {'lib': spec, 'mapping': pairs,
                     'scales': r.sample([-3, -1, 0, 0.5, 2, 1e3], 2),
-                    'permute': True}
+                    'permute': True,
+                    'keyform': 'obj' if r.random() < 0.3 else 'str'}
             if r.random() < 0.2:
                 out = r.choice(with_data) if with_data and r.random() < 0.6 \
                     else 'not-in-library'
